@@ -55,6 +55,16 @@ pub fn gen(rng: &mut Rng, tier: Tier, idx: u64) -> Case {
     c.read_script = script;
     c.read_tail = tail;
     c.reader_style = rng.below(3) as u8;
+    if rng.chance(1, 3) {
+        // the packet is not the last thing on the stream: bytes of a following packet are already
+        // there (pipelined peer); they must not leak into this packet
+        let n = rng.urange(1, 16);
+        let mut sfx = rng.bytes(n);
+        if rng.bool() {
+            sfx[0] = 0xC0;
+        }
+        c.suffix = Bs(sfx);
+    }
     c
 }
 
@@ -94,8 +104,10 @@ fn run_g<C: Codec>(c: &Case, trace: bool) -> RunOut {
         out.nontrivial = true;
     }
     out.mix(&enc);
+    let len = enc.len();
+    let mut enc = enc;
+    enc.extend_from_slice(&c.suffix.0);
     let stream = Rc::new(enc);
-    let len = stream.len();
     let h = spec::ref_frame(&stream).map(|x| x.0).unwrap_or(0);
 
     let b = fe_block::<C>(&stream);
@@ -123,7 +135,7 @@ fn run_g<C: Codec>(c: &Case, trace: bool) -> RunOut {
                             format!("poll decoder reports total {total:?}, the encoding is {len} bytes"),
                         );
                     }
-                    if body.as_deref() != Some(&stream[h..]) {
+                    if body.as_deref() != Some(&stream[h..len]) {
                         out.violate(
                             format!("C01:{}:{ty}:P:body", fam_s(c)),
                             "poll decoder's raw body differs from the encoded body".to_string(),
